@@ -105,6 +105,7 @@ package keeper
 //@         ==> !(ExpiredData[u64(Metadata[Order[orderId].DataId].CreatedAt + Metadata[Order[orderId].DataId].Duration)].Data[i] == Order[orderId].DataId && ExpiredData[u64(Metadata[Order[orderId].DataId].CreatedAt + Metadata[Order[orderId].DataId].Duration)].Data[j] == Order[orderId].DataId)
 //@   modifies Order[orderId], Metadata[Order[orderId].DataId], Model[sprintf("%s-%s-%s", Metadata[Order[orderId].DataId].Owner, Metadata[Order[orderId].DataId].Alias, Metadata[Order[orderId].DataId].GroupId)], ExpiredData, Bank
 //@   ensures [C05.cancel.order] err == nil ==> old(has(Order, orderId)) && !has(Order, orderId)
+//@   ensures [C05.cancel.err] err != nil ==> Order[orderId] == old(Order[orderId]) && (has(Order, orderId) <==> old(has(Order, orderId)))
 //@   ensures [C12.cancel.succeeds] old(has(Order, orderId)) && has(PaymentAddress, (old(Order[orderId].PaymentDid) != "" ? old(Order[orderId].PaymentDid) : old(Order[orderId].Owner)))
 //@       && old(Order[orderId].Amount.Amount) > 0 && oldbal(moduleAddr("order"), old(Order[orderId].Amount.Denom)) >= old(Order[orderId].Amount.Amount)
 //@       && !blockedAddr(addr(PaymentAddress[(old(Order[orderId].PaymentDid) != "" ? old(Order[orderId].PaymentDid) : old(Order[orderId].Owner))].Address)) ==> err == nil
